@@ -144,11 +144,56 @@ def bound_selection_table(ctx):
                       "NumberSchema::%s with %s returns %s, expected %s" % (fn, name, sorted(got, key=str), want), site=gb.where())
 
 
+def opt_minmax_table(ctx):
+    """opt_max / opt_min (used by Schema::intersect to combine bounds of two schemas): decided like get_minimum — the two
+    arguments are only compared, so the returned argument is decidable for every ordering and presence combination:
+      opt_max: a<b -> b, a>b -> a, a=b -> either;   opt_min: a<b -> a, a>b -> b, a=b -> either;   one absent -> the other."""
+    P = ctx.prog
+    for fn, table in (("opt_max", {-1: {"y"}, 0: {"x", "y"}, 1: {"x"}}), ("opt_min", {-1: {"x"}, 0: {"x", "y"}, 1: {"y"}})):
+        b = ctx.body(JS + fn)
+
+        def side(e, depth=4):
+            e = L.strip_views(e)
+            if e[0] in ("place", "ref") and e[1]:
+                if e[1][0] in (1, 2):
+                    return {1: "x", 2: "y"}[e[1][0]]
+                if depth > 0:
+                    e2 = b.expr_place(e[1])
+                    if e2 != e and e2[0] in ("place", "ref", "local"):
+                        return side(e2, depth - 1)
+                return None
+            if e[0] == "local":
+                return {1: "x", 2: "y"}.get(e[1])
+            return None
+        results = {}
+        for bi, si, st in b.statements():
+            r = st.get("r", {})
+            if st["s"] == "assign" and st["p"] == [0]:
+                if r.get("rv") == "agg" and isinstance(r.get("kind"), dict) and r["kind"].get("variant") == "Some" and r["ops"]:
+                    results[bi] = side(b.expr(r["ops"][0])) or "?"
+                elif r.get("rv") == "agg" and isinstance(r.get("kind"), dict) and r["kind"].get("variant") == "None":
+                    results[bi] = "none"
+                elif r.get("rv") == "use":
+                    results[bi] = side(b.expr(r["o"])) or "?"
+        for order, name in ((-1, "a<b"), (0, "a=b"), (1, "a>b")):
+            got = L.ordering_walk(b, side, results, order, {"x": True, "y": True})
+            ctx.check(bool(got) and got <= table[order], "C08-R1", "%s:both-present:%s" % (fn, name), "returns %s" % sorted(got),
+                      "%s(a, b) with %s returns %s, expected %s: Schema::intersect would keep the looser of two bounds" % (fn, name, sorted(got), sorted(table[order])),
+                      site=b.where())
+        for present, want, name in (({"x": True, "y": False}, {"x"}, "only-a"), ({"x": False, "y": True}, {"y"}, "only-b"), ({"x": False, "y": False}, {"none"}, "neither")):
+            got = L.ordering_walk(b, side, results, None, present)
+            # returning the (absent) argument itself is the same as returning None
+            norm = {("none" if (g in ("x", "y") and not present[g]) else g) for g in got}
+            ctx.check(norm == want, "C08-R1", "%s:%s" % (fn, name), "returns %s" % sorted(norm),
+                      "%s with %s returns %s, expected %s" % (fn, name, sorted(got), sorted(want)), site=b.where())
+
+
 def run(ctx):
     P = ctx.prog
     # ------------------------------------------------------------------ R1 mirrors
     bound_selection_table(ctx)
-    for a, b, what in ((JS + "opt_max", JS + "opt_min", "opt_max / opt_min"),):
+    opt_minmax_table(ctx)
+    for a, b, what in ():
         ba, bb = ctx.body(a), ctx.body(b)
         sa, sb = c16.signature(P, ba), c16.signature(P, bb)
         if what.startswith("opt_"):
